@@ -184,7 +184,7 @@ func (w *World) stable() {
 				} else {
 					active = st[0] > 0
 				}
-				if active && !w.S.isParked("es:"+name) {
+				if active && !w.S.isParkedFor("es:"+name) {
 					ok = false
 					break
 				}
